@@ -223,6 +223,8 @@ LAYER2 = {
     "C13": ["Pow_pow_small", "Root_small", "Log_small"],
     "C14": ["Knuth_small", "Div_small", "MG10_2x1_small", "MG10_3x2_small", "MG10_recip2_small"],
     "C15": ["AddMul_small"],
+    "C16": ["MC_Codecs_small"],
+    "C17": ["MC_Codecs_small"],
     "C18": ["Float_to_small", "Float_from_small"],
 }
 
@@ -236,7 +238,8 @@ def layer2_for(prop):
             last = json.load(fh)
     except (OSError, ValueError):
         last = {}
-    return {"note": "design-level models with the limb width as a constant, model-checked exhaustively by ./check --setup; "
+    return {"note": "design-level models (algorithms with the limb width as a constant; for C16 / C17 the self-consistency of the codec "
+                    "oracle, spec/MC_Codecs.tla), model-checked exhaustively by ./check --setup; "
                     "they never change this check's exit code (DESIGN.md 8, algo/README.md)",
             "instances": {n: last.get(n, "not run since the last setup") for n in names}}
 
